@@ -221,3 +221,75 @@ def decoy_load(m, X, y, kw):
         except Exception:
             pass
     return True
+
+
+# ---------------------------------------------------------------------------------------------
+# gamma_vs_metricframe: for ratio 1 and hard predictors the '+' entries of gamma are
+# MetricFrame(by_group - overall) of the matching rate (per control level), the '-' entries the negation
+# ---------------------------------------------------------------------------------------------
+def hard_ids(case):
+    """positions in case['hs'] of the hard (0/1) predictors"""
+    return [i for i, h in enumerate(case["hs"]) if all(x in ("0", "1") for x in h)]
+
+
+def bridge_enabled(case):
+    """the bridge block is requested only when the configured ratio is 1 and the configuration is valid"""
+    if case["fam"] != "parity":
+        return False
+    if case["db"] is not None and case["rb"] is not None:
+        return False
+    return case["rb"] is None or F(case["rb"]) == 1
+
+
+def metricframe_gaps(case, m):
+    """MetricFrame(metrics=<matching rate>, y_true=y, y_pred=h(X), sensitive_features=g[, control_features=c]):
+    for every hard predictor and every entry of m.index: by_group[(control level,) group] - overall[(control level)].
+    The control level and (for EqualizedOdds) the label class of an index entry are read off the ROWS of its event
+    (tags), never parsed from the event string."""
+    import numpy as np, pandas as pd
+    from fairlearn.metrics import MetricFrame, selection_rate, true_positive_rate, false_positive_rate
+    from sklearn.metrics import zero_one_loss
+    table = {"DP": {None: ("sel", selection_rate)},
+             "TPR": {1: ("tpr", true_positive_rate)},
+             "FPR": {0: ("fpr", false_positive_rate)},
+             "EO": {1: ("tpr", true_positive_rate), 0: ("fpr", false_positive_rate)},
+             "ERP": {None: ("zol", zero_one_loss)}}[case["moment"]]
+    metrics = {nm: fn for nm, fn in table.values()}
+    y = np.asarray(case["y"], dtype=int)
+    sf = pd.Series([GNAMES[g] for g in case["g"]], name="sf")
+    cf = None if case["c"] is None else pd.Series([CNAMES[c] for c in case["c"]], name="cf")
+    ev = m.tags["event"]
+    entries = []
+    for (s, e, g) in m.index:
+        rows = np.where((ev == e).values)[0]
+        if len(rows) == 0:
+            raise RuntimeError(f"index entry {(s, e, g)} has no rows")
+        if len(table) == 1:
+            nm = list(table.values())[0][0]
+        else:
+            labs = {int(y[i]) for i in rows}
+            if len(labs) != 1:
+                raise RuntimeError(f"event {e!r} mixes label classes")
+            nm = table[labs.pop()][0]
+        lev = None
+        if cf is not None:
+            levs = {cf.iloc[i] for i in rows}
+            if len(levs) != 1:
+                raise RuntimeError(f"event {e!r} mixes control levels")
+            lev = levs.pop()
+        entries.append((nm, lev, g))
+    hard = hard_ids(case)
+    gaps = []
+    for i in hard:
+        yp = np.asarray([int(x) for x in case["hs"][i]], dtype=int)
+        kw = {} if cf is None else {"control_features": cf}
+        mf = MetricFrame(metrics=metrics, y_true=y, y_pred=yp, sensitive_features=sf, **kw)
+        bg, ov = mf.by_group, mf.overall
+        row = []
+        for nm, lev, g in entries:
+            if cf is None:
+                row.append(float(bg.loc[g, nm]) - float(ov[nm]))
+            else:
+                row.append(float(bg.loc[(lev, g), nm]) - float(ov.loc[lev, nm]))
+        gaps.append(row)
+    return {"hard": hard, "gap": gaps}
